@@ -295,10 +295,6 @@ func (db *Database) SearchUniversal(query string, options SearchOptions) []Searc
 
 	options.Limit = db.effectiveLimit(options.Limit, 10)
 
-	// Surrounding blanks never matter to the tokenizer, but they did to the typo
-	// fallback - while the result cache files a query under its trimmed form.
-	query = strings.TrimSpace(query)
-
 	terms := normalizeAndTokenize(query)
 	var pq *nlp.ProcessedQuery
 
